@@ -8,6 +8,7 @@
 package bandrv
 
 import (
+	"errors"
 	"encoding/binary"
 	"encoding/hex"
 	"fmt"
@@ -253,15 +254,30 @@ func (w *world) close() {
 	os.RemoveAll(w.dir)
 }
 
-func errWord(err error) string {
-	switch {
-	case err == banman.ErrUnsupportedIP:
+// Errors are classified WITHOUT reading their message text (a reworded message
+// must not change the trace): by identity where the code offers one, else by
+// the situation the harness itself created.
+
+// parseErrWord: an error of banman.ParseIPNet.
+func parseErrWord(err error) string {
+	if errors.Is(err, banman.ErrUnsupportedIP) {
 		return "errparse"
-	case strings.Contains(err.Error(), "unable to encode") && strings.Contains(err.Error(), banman.ErrUnsupportedIP.Error()):
-		return "errencode"
-	default:
-		return "err:" + strings.ReplaceAll(err.Error(), " ", "_")
 	}
+	return "errparse-other" // ParseIPNet has no other error: unparsable for the Lean driver, hence reported
+}
+
+// storeErrWord: an error of a store call on the net n.  The store wraps the
+// encoder's ErrUnsupportedIP without %w, so there is no identity to test; what
+// is known is the input: an IP that has neither a 4- nor a 16-byte form cannot
+// be encoded.  Any error on an encodable net is "errstore" (never expected).
+func storeErrWord(n *net.IPNet, err error) string {
+	if errors.Is(err, banman.ErrCorruptedStore) {
+		return "errcorrupted"
+	}
+	if n.IP.To4() == nil && n.IP.To16() == nil {
+		return "errencode"
+	}
+	return "errstore"
 }
 
 // guarded runs f with a watchdog and a recover.
@@ -366,10 +382,10 @@ func (x *runner) banCall(word string, tg target, reason uint8, durMs int64) (str
 		defer func() { t1 = nowMs() }()
 		n, err := tg.ipNet()
 		if err != nil {
-			return errWord(err)
+			return parseErrWord(err)
 		}
 		if err := x.w.store.BanIPNet(n, banman.Reason(reason), time.Duration(durMs)*time.Millisecond); err != nil {
-			return errWord(err)
+			return storeErrWord(n, err)
 		}
 		return "ok"
 	})
@@ -402,11 +418,11 @@ func (x *runner) status(tg target) string {
 		defer func() { t1 = nowMs() }()
 		n, err := tg.ipNet()
 		if err != nil {
-			return errWord(err)
+			return parseErrWord(err)
 		}
 		st, err := x.w.store.Status(n)
 		if err != nil {
-			return errWord(err)
+			return storeErrWord(n, err)
 		}
 		if st.Banned {
 			return fmt.Sprintf("banned %d %d", uint8(st.Reason), st.Expiration.Unix())
@@ -436,10 +452,10 @@ func (x *runner) unban(tg target) {
 		defer func() { t1 = nowMs() }()
 		n, err := tg.ipNet()
 		if err != nil {
-			return errWord(err)
+			return parseErrWord(err)
 		}
 		if err := x.w.store.UnbanIPNet(n); err != nil {
-			return errWord(err)
+			return storeErrWord(n, err)
 		}
 		return "ok"
 	})
@@ -615,8 +631,10 @@ func Run(t *tr.W, thorough bool) {
 		nInterpose, nRace, raceRounds = 40, 8, 400*mult
 	}
 	if os.Getenv("VERIF_SEARCH") == "1" {
-		// bin/check is looking for a failing input after a broken tie: wall-clock bound (cases sleep), not op bound
-		nRandom, nOps, nSpell, nLapse, nProbe = 300, 40, 60, 12, 3
+		// bin/check is looking for a failing input after a broken tie: 3x the quick tier, whatever budget and
+		// tier it passes (cases sleep: the pass is bound by wall clock, not by operations)
+		nRandom, nOps, nSpell, nLapse, nProbe = 3*64, 36, 3*12, 3*6, 3
+		nInterpose, nRace, raceRounds = 6, 2, 120
 	}
 	type job struct {
 		kind string
@@ -659,7 +677,7 @@ func Run(t *tr.W, thorough bool) {
 			rng := tr.Rng(salt)
 			w, err := newWorld()
 			if err != nil {
-				r.op("open", "err:"+strings.ReplaceAll(err.Error(), " ", "_"))
+				r.op("open", "err:open")
 				return
 			}
 			defer w.close()
